@@ -32,6 +32,7 @@ def tasks(tier, seed):
     if tier == 'thorough':
         for sk, gk in F.t3_shards(1, 2, F.T3_KINDS_QUICK): t.append(('t3', 1, sk, gk, tier, seed))
         for sk, gk in F.t3_shards(0, 2, F.T3_KINDS_QUICK): t.append(('t3', 2, sk, gk, tier, seed))
+        t = F.slice_t3_tasks(t, 600)
     return t
 
 
